@@ -131,6 +131,11 @@ trait Comp: Sized {
     fn env(&self) -> Vec<String> {
         Vec::new()
     }
+    /// configuration that the state dump does not show (capacities of the parts, sketch seeds and masks, doorkeeper
+    /// geometry): printed once at the header and on every `clone`/`clonefrom`, where it must be the original's
+    fn geo(&self) -> Option<String> {
+        self.env().first().map(|e| e.replace(' ', ","))
+    }
 }
 
 fn nums(a: &[&str]) -> Vec<u64> {
@@ -557,6 +562,10 @@ impl<K: KeyKind, S: BuildHasher + Clone> Comp for SlruComp<K, S> {
             c: in_call(|| self.c.clone()),
         })
     }
+    fn geo(&self) -> Option<String> {
+        let (p, q) = self.c.verif_segments();
+        Some(format!("pcap={},qcap={},p.cap={},q.cap={}", self.c.probationary_cap(), self.c.protected_cap(), p.cap(), q.cap()))
+    }
     fn clone_into(&self, dst: &mut Self) -> bool {
         in_call(|| dst.c.clone_from(&self.c));
         true
@@ -908,6 +917,19 @@ impl<K: KeyKind, S: BuildHasher + Clone> Comp for WtComp<K, S> {
             c: in_call(|| self.c.clone()),
         })
     }
+    fn geo(&self) -> Option<String> {
+        let (w, m, t) = self.c.verif_parts();
+        let (p, q) = m.verif_segments();
+        Some(format!(
+            "wcap={},pcap={},qcap={},p.cap={},q.cap={},{}",
+            w.cap(),
+            m.probationary_cap(),
+            m.protected_cap(),
+            p.cap(),
+            q.cap(),
+            tiny_env(t).replace(' ', ",")
+        ))
+    }
     fn clone_into(&self, dst: &mut Self) -> bool {
         in_call(|| dst.c.clone_from(&self.c));
         true
@@ -1124,7 +1146,10 @@ fn drive<C: Comp>(
                                     let _ = take_drops();
                                     // `geo=`: configuration the state dump does not show (sketch seeds and masks, doorkeeper
                                     // geometry) — a clone must carry the original's (oracle of C16; not compared with the model)
-                                    let geo = c.env().first().map(|e| format!(" | geo={}", e.replace(' ', ","))).unwrap_or_default();
+                                    let geo = match (c.geo(), m.geo()) {
+                                        (Some(g), Some(g0)) => format!(" | geo={} | geoo={}", g, g0),
+                                        _ => String::new(),
+                                    };
                                     match c.sizes() {
                                         Some(sz) => writeln!(out, "{} => {} | sz={}{}", line, c.dump(), sz, geo).unwrap(),
                                         None => writeln!(out, "{} => {}{}", line, c.dump(), geo).unwrap(),
@@ -1160,7 +1185,10 @@ fn drive<C: Comp>(
                                         alt = Some(c);
                                     }
                                     let c = alt.as_ref().unwrap();
-                                    let geo = c.env().first().map(|e| format!(" | geo={}", e.replace(' ', ","))).unwrap_or_default();
+                                    let geo = match (c.geo(), main.as_ref().unwrap().geo()) {
+                                        (Some(g), Some(g0)) => format!(" | geo={} | geoo={}", g, g0),
+                                        _ => String::new(),
+                                    };
                                     match c.sizes() {
                                         Some(sz) => writeln!(out, "{} => {} | sz={}{}", line, c.dump(), sz, geo).unwrap(),
                                         None => writeln!(out, "{} => {}{}", line, c.dump(), geo).unwrap(),
